@@ -84,3 +84,9 @@
   (=> (and (<= 0 k) (<= k m) (mantstop d o k)) (= (mantval d o m) (mantval d o k))))
 ; the text's value written as  M * 10^-s  with  s = fraction digits - signed exponent
 (define-fun textscale ((d (Array Int Int)) (o Int) (k Int)) Int (- (fracd d o k) (ite (expneg d o k) (- (numexp d o k)) (numexp d o k))))
+
+; ---- the parser's verdict and normal-form fraction length as functions of the text ----
+; DEFINED by json.NewNumber's own results (defines clauses of its contract; NewNumber is a deterministic function of the
+; content of its argument). Used to state that the two type guessers classify numbers by the same rule.
+(declare-fun numparses ((Array Int Int) Int Int) Bool)
+(declare-fun normfrac ((Array Int Int) Int Int) Int)
